@@ -104,7 +104,9 @@ def _case(draw):
         for name in ("border_top", "border_bottom"):
             if draw(st.booleans()):
                 # matrices indexed by ORIGINAL column; row 0 keeps the default ''
-                user[name] = [[""] * (ncol + off)] + [[draw(style) for _ in range(ncol + off)] for _ in range(max(n - 1, 1))]
+                # full-height matrix, or a short pattern (2-4 rows) recycled down the table; row 0 stays default
+                k = max(n - 1, 1) if draw(st.booleans()) else draw(st.integers(1, 3))
+                user[name] = [[""] * (ncol + off)] + [[draw(style) for _ in range(ncol + off)] for _ in range(k)]
         for name in ("border_left", "border_right"):
             if draw(st.integers(0, 9)) < 3:
                 user[name] = [draw(style) for _ in range(ncol + off)]
